@@ -45,6 +45,14 @@ CHECKS = {
         note=NOTE + " unimock 0.6.8 / mockall 0.12.1 derives as shipped.",
         technique="exhaustive enumeration of a finite configuration lattice on the real macro, decision-table model",
         ref="DESIGN.md §3 C10"),
+    "C13": dict(
+        text="Every (input mode, requested visibility, item visibility) program - fn: 5 requested x 3 fn visibilities; mod: 3 requested x module visibility "
+             "x fn visibility, through the re-export and through the module; trait: 4 trait visibilities x static/ref delegation target x attribute-side "
+             "visibility - x 5 probe scopes (defining scope, parent, grandparent, crate root, a second crate). One probe per unit: it must compile exactly "
+             "where Rust's visibility lattice allows it and be rejected with a privacy error elsewhere; the visibility tokens of the emitted trait and "
+             "re-export are compared too.",
+        note=NOTE, technique="exhaustive enumeration of (program x probe scope) on the real macro; positive and negative compile probes vs visibility-lattice model",
+        ref="DESIGN.md §3 C13"),
     "C15": dict(
         text="(i) every attribute-argument token word up to length 3 (quick) / 4 (thorough) over a 23-token alphabet (option names, values, "
              "punctuation, keywords, literals, a parenthesised group) on fn, mod, trait and impl items (~50k invocations in quick); (ii) 39 documented-misuse "
